@@ -115,7 +115,7 @@ package lossy
 //@   requires len(part0) < 1<<19 && 1 <= len(tokenParts) && len(tokenParts) <= 8
 //@   requires forall j int in 0..7 :: j < len(tokenParts)-1 ==> len(tokenParts[j]) < 1<<24
 //@   modifies nothing
-//@   loop 0: invariant 0 <= totalSize && totalSize <= 13 + len(part0) + 3*8 + (rangeindex+1)*(1<<24)
+//@   loop 0: invariant 0 <= totalSize && totalSize <= 13 + len(part0) + 3*8 + (rangeindex+1)*(1<<48)
 //@   loop 1: invariant 0 <= i && i <= len(tokenParts)-1 && len(buf) == 10 + len(part0) + 3*i
 //@   loop 1: invariant int(buf[0]) | int(buf[1])<<8 | int(buf[2])<<16 == 16 | len(part0)<<5
 //@   loop 1: invariant buf[3] == 0x9d && buf[4] == 0x01 && buf[5] == 0x2a
